@@ -1,4 +1,6 @@
 import EgVerif.Proofs.RateLimiter
+import EgVerif.Proofs.RateLimiterExt
+import EgVerif.Proofs.RateLimiterFilter
 import EgVerif.Gen.FactsC09
 /-!
 # C09 — the rate limiter never releases more than `limitForPeriod` per period
@@ -182,5 +184,327 @@ example : (runH pEx RateLimiter.init [3, 3, 3, 3, 3] []).2.map (·.2) =
     [⟨true, 0⟩, ⟨true, 0⟩, ⟨true, 7⟩, ⟨true, 7⟩, ⟨false, 10⟩] := by decide
 
 example : Sorted 0 [3, 3, 3, 3, 3] := by simp [Sorted]
+
+/-! ## The judge's executable specification accepts every reachable model history -/
+
+theorem specHist_append (p : Policy) : ∀ (l b : Hist) (e : Int × Out),
+    specHist p b (l ++ [e]) = (specHist p b l && specStep p (b ++ l) e)
+  | [], b, e => by simp [specHist]
+  | x :: l, b, e => by
+    simp only [List.cons_append, specHist]
+    rw [specHist_append p l (b ++ [x]) e, Bool.and_assoc]
+    simp
+
+theorem horizonFull_iff (p : Policy) (wf : p.WF) (h : Hist) (c : Int) :
+    ((List.range (p.T / p.P + 1).toNat).all (fun j => cnt p.P h (c + (j : Int)) == p.L.toNat)) = true ↔
+      ∀ j : Nat, (j : Int) ≤ p.T / p.P → cnt p.P h (c + j) = p.L.toNat := by
+  have hq : 0 ≤ p.T / p.P := Int.ediv_nonneg wf.hT (le_of_lt wf.hP)
+  simp only [List.all_eq_true, List.mem_range, beq_iff_eq]
+  constructor
+  · intro hh j hj; exact hh j (by omega)
+  · intro hh j hj; exact hh j (by omega)
+
+/-- One more arrival of a reachable history satisfies the executable per-step specification that the
+judge evaluates on the implementation's observations. -/
+theorem specStep_of_reach {p : Policy} (wf : p.WF) {s h lo} (r : Reach p s h lo) (now : Int) (hle : lo ≤ now) :
+    specStep p h (now, (acquire p s now 1).2) = true := by
+  have hb := step_wait_bounds wf r now hle
+  have hrej := reject_iff_horizon_full wf r now hle
+  have hhor := horizonFull_iff p wf h (now / p.P)
+  have hcb := cycle_bound wf (Reach.step now r hle) (relCycle p.P (now, (acquire p s now 1).2))
+  have hsp : cnt p.P h (now / p.P) < p.L.toNat → (acquire p s now 1).2 = ⟨true, 0⟩ := spare_immediate wf r now hle
+  simp only at hb
+  unfold specStep
+  simp only
+  generalize (acquire p s now 1).2 = o at *
+  cases hperm : o.permitted with
+  | true =>
+    obtain ⟨w0, w1⟩ := hb.1 hperm
+    have hnf : ¬ ∀ j : Nat, (j : Int) ≤ p.T / p.P → cnt p.P h (now / p.P + j) = p.L.toNat := by
+      intro hall; have := hrej.mpr hall; rw [hperm] at this; simp at this
+    have hnf' : ((List.range (p.T / p.P + 1).toNat).all
+        (fun j => cnt p.P h (now / p.P + (j : Int)) == p.L.toNat)) = false := by
+      by_contra hc
+      exact hnf (hhor.mp (by simpa using hc))
+    simp only [if_true, hnf', Bool.not_false, Bool.and_true, Bool.and_eq_true, decide_eq_true_eq,
+      Bool.or_eq_true, Bool.not_eq_true', decide_eq_false_iff_not, beq_iff_eq]
+    refine ⟨⟨⟨w0, w1⟩, ?_⟩, hcb⟩
+    by_cases hs : cnt p.P h (now / p.P) < p.L.toNat
+    · right; rw [hsp hs]
+    · left; exact hs
+  | false =>
+    have hall := hrej.mp hperm
+    have h0 := hall 0 (by simpa using Int.ediv_nonneg wf.hT (le_of_lt wf.hP))
+    simp only [Nat.cast_zero, add_zero] at h0
+    simp only [Bool.false_eq_true, if_false, Bool.and_eq_true, Bool.not_eq_true', decide_eq_false_iff_not]
+    exact ⟨by omega, hhor.mpr hall⟩
+
+/-- **The executable specification used by the judge accepts the model's own behaviour**: every
+reachable history passes `specHist`. (Ties the judge's `spec` verdict to the theorems above: a
+`spec = false` on an observation that the model reproduces would contradict this theorem.) -/
+theorem spec_accepts_model {p : Policy} (wf : p.WF) {s h lo} (r : Reach p s h lo) :
+    specHist p [] h = true := by
+  induction r with
+  | init => simp [specHist]
+  | step now r' hle ih =>
+    rw [specHist_append, ih, List.nil_append, specStep_of_reach wf r' now hle]
+    rfl
+
+/-! ## Extension 1 — the MQTT limiters (timeout 0, `AcquireNPermission`, multi limiter)
+
+A limiter with `timeoutDuration = 0` asked for `n ≥ 0` permits per arrival (`n` = packet size for the
+byte limiter, `n = 1` for the request limiter). History entries are (arrival, permits asked, admitted);
+with timeout 0 an admitted request never waits, so the period of release is the period of arrival.
+The packed-token invariant of the core limiter (one release per token) is replaced by `VInv`
+(`Proofs/RateLimiterExt.lean`): the tokens of the current period bound what was admitted in it and
+stay below `L` + the largest admitted request. -/
+
+/-- reachable states of a single limiter asked `n ≥ 0` permits per arrival -/
+inductive ReachN (p : Policy) : RL → NHist → Int → Prop
+  | init : ReachN p RateLimiter.init [] 0
+  | step {s h lo} (now n : Int) : ReachN p s h lo → lo ≤ now → 0 ≤ n →
+      ReachN p (acquire p s now n).1 (h ++ [(now, n, (acquire p s now n).2.permitted)]) now
+
+theorem reachN_inv {p : Policy} (hL : 0 < p.L) (hP : 0 < p.P) (hT : p.T = 0) {s h lo}
+    (r : ReachN p s h lo) : VInv p.L p.P s h ∧ 0 ≤ lo ∧ s.cycle ≤ lo / p.P := by
+  induction r with
+  | init => exact ⟨vinv_init p.L p.P hL, le_refl _, by simp [RateLimiter.init]⟩
+  | step now n _ hle hn ih =>
+    obtain ⟨inv, hlo, hcy⟩ := ih
+    have hnow : 0 ≤ now := le_trans hlo hle
+    have hmono := le_trans hcy (Int.ediv_le_ediv hP hle)
+    obtain ⟨e1, e2, _⟩ := acquire_T0 p hL hP hT _ now n hnow
+    have := vinv_step p.L p.P hL _ _ now n false hn hmono inv
+    rw [e1, e2]
+    exact ⟨this.1, hnow, this.2⟩
+
+/-- **MQTT byte limiter** (`AcquireNPermission(packet size)`, timeout 0): in every period the admitted
+bytes stay below `bytesRate` + the largest admitted packet — for every arrival pattern and every
+sequence of packet sizes; and an admitted packet never waits. -/
+theorem mqtt_bytes_overshoot_lt_packet {p : Policy} (hL : 0 < p.L) (hP : 0 < p.P) (hT : p.T = 0)
+    {s h lo} (r : ReachN p s h lo) (c : Int) : usedIn p.P h c < p.L + maxIn p.P h c := by
+  obtain ⟨inv, _, _⟩ := reachN_inv hL hP hT r
+  by_cases hc : c = s.cycle
+  · rw [hc]; have := inv.used_le; have := inv.tok_lt; omega
+  · exact inv.past c hc
+
+theorem maxIn_le (P : Int) (h : NHist) (c b : Int) (hb : 0 ≤ b) (hall : ∀ e ∈ h, e.2.1 ≤ b) :
+    maxIn P h c ≤ b := by
+  unfold maxIn
+  have key : ∀ (l : List (Int × Int × Bool)) (a : Int), a ≤ b → (∀ e ∈ l, e.2.1 ≤ b) →
+      l.foldl (fun a e => if e.2.1 > a then e.2.1 else a) a ≤ b := by
+    intro l
+    induction l with
+    | nil => intro a ha _; simpa using ha
+    | cons x xs ih =>
+      intro a ha hl
+      simp only [List.foldl_cons]
+      apply ih
+      · have := hl x (by simp); split_ifs <;> omega
+      · intro e he; exact hl e (by simp [he])
+  apply key _ 0 hb
+  intro e he
+  exact hall e (List.mem_filter.mp he).1
+
+/-- **MQTT request limiter** (one permit per packet, timeout 0): at most `requestRate` packets are
+admitted per period. (`usedIn` sums the permits of the admitted arrivals: with one permit each it
+is their number.) -/
+theorem mqtt_request_bound {p : Policy} (hL : 0 < p.L) (hP : 0 < p.P) (hT : p.T = 0)
+    {s h lo} (r : ReachN p s h lo) (hone : ∀ e ∈ h, e.2.1 = 1) (c : Int) : usedIn p.P h c ≤ p.L := by
+  have h1 := mqtt_bytes_overshoot_lt_packet hL hP hT r c
+  have h2 := maxIn_le p.P h c 1 (by decide) (fun e he => by rw [hone e he])
+  omega
+
+/-- reachable states of the two-dimensional multi limiter `[requests, bytes]` with timeout 0, with
+the per-dimension histories -/
+inductive ReachM (L0 L1 P : Int) : MRL → NHist → NHist → Int → Prop
+  | init : ReachM L0 L1 P (minit ⟨[L0, L1], P, 0⟩) [] [] 0
+  | step {s h0 h1 lo} (now n0 n1 : Int) : ReachM L0 L1 P s h0 h1 lo → lo ≤ now → 0 ≤ n0 → 0 ≤ n1 →
+      ReachM L0 L1 P (macquire ⟨[L0, L1], P, 0⟩ s now [n0, n1]).1
+        (h0 ++ [(now, n0, (macquire ⟨[L0, L1], P, 0⟩ s now [n0, n1]).2.permitted)])
+        (h1 ++ [(now, n1, (macquire ⟨[L0, L1], P, 0⟩ s now [n0, n1]).2.permitted)]) now
+
+theorem reachM_inv {L0 L1 P : Int} (hL0 : 0 < L0) (hL1 : 0 < L1) (hP : 0 < P) {s h0 h1 lo}
+    (r : ReachM L0 L1 P s h0 h1 lo) :
+    ∃ c t0 t1, s = ⟨c, [t0, t1]⟩ ∧ VInv L0 P ⟨c, t0⟩ h0 ∧ VInv L1 P ⟨c, t1⟩ h1 ∧ 0 ≤ lo ∧ c ≤ lo / P := by
+  induction r with
+  | init =>
+    exact ⟨0, 0, 0, by simp [minit], vinv_init L0 P hL0, vinv_init L1 P hL1, le_refl _, by simp⟩
+  | step now n0 n1 _ hle hn0 hn1 ih =>
+    obtain ⟨c, t0, t1, hs, i0, i1, hlo, hcy⟩ := ih
+    have hnow : 0 ≤ now := le_trans hlo hle
+    have hmono : c ≤ now / P := le_trans hcy (Int.ediv_le_ediv hP hle)
+    obtain ⟨e, e2, e3⟩ := macquire2_T0 L0 L1 P c t0 t1 now n0 n1 hnow
+    have s0 := vinv_step L0 P hL0 ⟨c, t0⟩ _ now n0 (decide (reb L1 P c t1 now ≥ L1)) hn0 hmono i0
+    have s1 := vinv_step L1 P hL1 ⟨c, t1⟩ _ now n1 (decide (reb L0 P c t0 now ≥ L0)) hn1 hmono i1
+    rw [hs, e]
+    refine ⟨_, _, _, rfl, s0.1, ?_, hnow, s0.2⟩
+    simp only
+    rw [e2, e3]
+    exact s1.1
+
+/-- **MQTT multi limiter** (`[requestRate, bytesRate]`, `AcquirePermission([1, size])`, timeout 0):
+per period at most `requestRate` packets are admitted (first dimension, one permit per packet) and
+the admitted bytes stay below `bytesRate` + the largest admitted packet. -/
+theorem mqtt_multi_bounds {L0 L1 P : Int} (hL0 : 0 < L0) (hL1 : 0 < L1) (hP : 0 < P) {s h0 h1 lo}
+    (r : ReachM L0 L1 P s h0 h1 lo) (c : Int) :
+    usedIn P h0 c < L0 + maxIn P h0 c ∧ usedIn P h1 c < L1 + maxIn P h1 c ∧
+    ((∀ e ∈ h0, e.2.1 = 1) → usedIn P h0 c ≤ L0) := by
+  obtain ⟨c', t0, t1, _, i0, i1, _, _⟩ := reachM_inv hL0 hL1 hP r
+  have b0 : usedIn P h0 c < L0 + maxIn P h0 c := by
+    by_cases hc : c = c'
+    · rw [hc]; have := i0.used_le; have := i0.tok_lt; simp only at *; omega
+    · exact i0.past c hc
+  have b1 : usedIn P h1 c < L1 + maxIn P h1 c := by
+    by_cases hc : c = c'
+    · rw [hc]; have := i1.used_le; have := i1.tok_lt; simp only at *; omega
+    · exact i1.past c hc
+  refine ⟨b0, b1, fun hone => ?_⟩
+  have h2 := maxIn_le P h0 c 1 (by decide) (fun e he => by rw [hone e he])
+  omega
+
+/-- `newLimiter` gives every limiter timeout 0 and a positive whole-second period, so the three
+theorems above apply to whatever the MQTT proxy builds from a `RateLimit` spec. -/
+theorem mqtt_newLimiter_policy (sp : RateLimitSpec) :
+    match newLimiter (some sp) with
+    | Limiter.none => sp.requestRate ≤ 0 ∧ sp.bytesRate ≤ 0
+    | Limiter.multi p s => p.T = 0 ∧ 0 < p.P ∧ p.Ls = [sp.requestRate, sp.bytesRate] ∧
+        0 < sp.requestRate ∧ 0 < sp.bytesRate ∧ s = minit p
+    | Limiter.request p s => p.T = 0 ∧ 0 < p.P ∧ p.L = sp.requestRate ∧ 0 < p.L ∧ s = RateLimiter.init
+    | Limiter.byte p s => p.T = 0 ∧ 0 < p.P ∧ p.L = sp.bytesRate ∧ 0 < p.L ∧ s = RateLimiter.init := by
+  unfold newLimiter
+  simp only [second]
+  split_ifs <;> simp <;> omega
+
+/-- Non-vacuity: bytesRate 10 per 1 s; packets 7, 7, 7 at t = 0: two are admitted (14 bytes
+< 10 + 7), the third is refused; in the next period the 4 bytes of overshoot are carried. -/
+example : ((Limiter.byte ⟨10, 1000000000, 0⟩ RateLimiter.init).run [(0, 7), (0, 7), (0, 7), (1000000000, 7), (1000000000, 7)])
+    = [true, true, false, true, false] := by decide
+
+/-! ## Extension 2 — the `RateLimiter` filter: `Handle` and `reload`
+
+`ms[i]` says whether URL rule `i` matches the request (computed by `urlrule`, an oracle here);
+`rls[i]` is the limiter object of rule `i`; the heap maps object ids to limiter states. -/
+section Filter
+open EgVerif.RateLimiterFilter
+
+/-- A request that matches no URL rule is never limited: no limiter is asked, nothing changes, no
+response is written. -/
+theorem unmatched_never_limited (now : Nat → Int) (ms : List Bool) (rls : List (Option Nat)) (h : Heap)
+    (hall : ∀ b ∈ ms, b = false) : handle now ms rls h = some (h, noLimit) :=
+  handle_all_false now ms rls h hall
+
+/-- Only the first matching rule counts: the outcome of `Handle` is that of asking the limiter of
+the first matching rule — whatever later rules (`ms`, `post`) match or hold — and no other limiter
+object is touched. -/
+theorem first_matching_rule_only (now : Nat → Int) (pre post : List (Option Nat)) (ms : List Bool)
+    (id : Nat) (h : Heap) (l : Lim) (hl : heapGet h id = some l) :
+    handle now (List.replicate pre.length false ++ true :: ms) (pre ++ some id :: post) h =
+      handle now [true] [some id] h ∧
+    ∃ h' out, handle now [true] [some id] h = some (h', out) ∧ out.asked = some id ∧
+      ∀ id', id' ≠ id → heapGet h' id' = heapGet h id' := by
+  constructor
+  · rw [handle_skip, handle_at_match now ms id post h l hl, handle_at_match now [] id [] h l hl]
+  · rw [handle_at_match now [] id [] h l hl]
+    simp only
+    split_ifs <;>
+      exact ⟨_, _, rfl, rfl, fun id' hne => heapGet_heapSet_other h id id' _ hne⟩
+
+/-- A request is answered 429 exactly when the result is `rateLimited`, which happens exactly when
+the limiter of the first matching rule refused; otherwise the result is empty and no response is
+written (after waiting the duration the limiter imposed). -/
+theorem reject_is_429 (now : Nat → Int) (ms : List Bool) (rls : List (Option Nat)) (h h' : Heap) (out : HOut)
+    (e : handle now ms rls h = some (h', out)) :
+    (out.result = "rateLimited" ↔ out.status = some 429) ∧
+    (out.result = "rateLimited" ∨ (out.result = "" ∧ out.status = none)) ∧
+    (out.result = "rateLimited" → ∃ id l, out.asked = some id ∧ heapGet h id = some l ∧
+      (acquire l.policy l.state (now id) 1).2.permitted = false) := by
+  rcases handle_out_shape now ms rls h h' out e with ⟨a, _, _⟩ | ⟨id, l, h1, h2, _, h4⟩
+  · subst a; simp [noLimit]
+  · rcases h4 with ⟨p, r, s⟩ | ⟨p, r, s, _⟩
+    · exact ⟨by simp [r, s], Or.inl r, fun _ => ⟨id, l, h1, h2, p⟩⟩
+    · exact ⟨by simp [r, s], Or.inr ⟨r, s⟩, fun hr => by simp [r] at hr⟩
+
+/-- **Reload keeps the state of unchanged rules** (`Inherit`, as repaired by
+fixes/C11-ratelimiter-prev-nil.patch). If every previous rule owns a limiter and every new rule has
+a policy (guaranteed by `Init` resp. `Validate`), then `reload` does not panic, gives every new rule
+a limiter, leaves every existing limiter object (policy and accumulated state) untouched, and
+* a new rule equal to a previous rule (`URLRule.DeepEqual`) whose policy is unchanged
+  (`isSamePolicy`) points to the *same limiter object* as the first such previous rule;
+* a new rule with no equal previous rule, or whose policy changed, gets a fresh limiter object
+  created with the defaults of `createRateLimiter` and the initial (empty) state. -/
+theorem reload_keeps_state (newSpec : Spec) (g : Gen) (heap : Heap) (next : Nat)
+    (hok : ∀ e ∈ heap, e.1 < next) (hall : ∀ r ∈ g.rls, r ≠ none)
+    (hbind : ∀ u ∈ newSpec.urls, (bindPolicy newSpec u).isSome) :
+    let st := reload newSpec (some g) heap next
+    st.panicked = false ∧ st.rls.length = newSpec.urls.length ∧
+    (∀ id l, heapGet heap id = some l → heapGet st.heap id = some l) ∧
+    ∀ (i : Nat) (u : URLRule), newSpec.urls[i]? = some u →
+      (∀ (j id : Nat), g.spec.urls[j]? = some u → (∀ k : Nat, k < j → g.spec.urls[k]? ≠ some u) →
+          g.rls[j]? = some (some id) →
+          isSamePolicy newSpec g.spec u.policyRef = true → st.rls[i]? = some (some id)) ∧
+      ((u ∉ g.spec.urls ∨ isSamePolicy newSpec g.spec u.policyRef = false) →
+          ∃ id p, next ≤ id ∧ st.rls[i]? = some (some id) ∧ bindPolicy newSpec u = some p ∧
+            heapGet st.heap id = some { policy := limiterPolicy p, state := RateLimiter.init }) := by
+  have hnn : ∀ u ∈ newSpec.urls, claim newSpec g.spec u g.spec.urls g.rls ≠ some none := by
+    intro u _ hc
+    obtain ⟨j, _, h2, _, _⟩ := claim_some newSpec g.spec u _ _ _ hc
+    exact hall none (List.mem_of_getElem? h2) rfl
+  have key := reloadLoop_spec newSpec g.spec g.rls newSpec.urls ⟨[], heap, next, false⟩ rfl hok hnn hbind
+  simp only [List.length_nil, Nat.zero_add] at key
+  obtain ⟨k1, _, _, k4, _, k6⟩ := key
+  refine ⟨k1, k4, fun id l hl => reloadLoop_heap newSpec g.spec g.rls _ _ id l hl, ?_⟩
+  intro i u hu
+  obtain ⟨c1, c2⟩ := k6 i u hu
+  constructor
+  · intro j id hj hfirst hrl hsame
+    apply c1
+    cases hcl : claim newSpec g.spec u g.spec.urls g.rls with
+    | none =>
+      exfalso
+      have := claim_none_of_found newSpec g.spec u g.spec.urls g.rls j (some id) hj hrl hsame
+      rw [hcl] at this; exact this rfl
+    | some r =>
+      obtain ⟨j', h1, h2, _, h4⟩ := claim_some newSpec g.spec u _ _ r hcl
+      have hjj : j' = j := by
+        rcases Nat.lt_trichotomy j' j with h | h | h
+        · exact absurd h1 (hfirst j' h)
+        · exact h
+        · exact absurd hj (h4 j h)
+      subst hjj
+      rw [hrl] at h2
+      simp only [Option.some.injEq] at h2
+      rw [← h2]
+  · intro hno
+    have := claim_none_of newSpec g.spec u g.spec.urls g.rls hno
+    simpa [reload] using c2 this
+
+/-- `createRateLimiter`'s defaults: limit 50, timeout 100 ms, refresh period 10 ms (the same values as
+`librl.NewDefaultPolicy`), and a configured value is taken as it is. -/
+theorem create_defaults (name : String) (t r : Int) :
+    limiterPolicy ⟨name, "", "", 0, t, r⟩ = { L := 50, P := 10000000, T := 100000000 } ∧
+    (∀ (ts rs : String) (l : Int), ts ≠ "" → rs ≠ "" → l ≠ 0 →
+      limiterPolicy ⟨name, ts, rs, l, t, r⟩ = { L := l, P := r, T := t }) := by
+  constructor
+  · simp [limiterPolicy]
+  · intro ts rs l h1 h2 h3
+    simp [limiterPolicy, h1, h2, h3]
+
+/-- Facts obligation (regenerated from the source on every run): the constants and the shape the
+filter / multi-limiter models assume — `createRateLimiter`'s literal defaults, the result string and
+the status code of a rejection, one `AcquirePermission` per `Handle`, `reload` shares the limiter and
+does not clear the previous generation's pointer (fixes/C11-ratelimiter-prev-nil.patch), and
+`MultiRateLimiter.AcquirePermission` is one critical section with a single clock read. -/
+theorem filter_source_facts :
+    Gen.FactsC09.extractionFailed = false ∧
+    Gen.FactsC09.createDefaults = ["policy.LimitForPeriod = 50",
+      "policy.TimeoutDuration = 100 * time.Millisecond", "policy.LimitRefreshPeriod = 10 * time.Millisecond"] ∧
+    Gen.FactsC09.resultRateLimited = "rateLimited" ∧
+    Gen.FactsC09.handleStatusCodes = ["http.StatusTooManyRequests"] ∧
+    Gen.FactsC09.handleAcquireCalls = 1 ∧
+    Gen.FactsC09.reloadSharesLimiter = 1 ∧ Gen.FactsC09.reloadClearsPrev = 0 ∧
+    Gen.FactsC09.multiLocksFirst = true ∧ Gen.FactsC09.multiClockReads = 1 := by decide
+
+end Filter
 
 end EgVerif.C09
